@@ -96,11 +96,11 @@ MLocalGlobal(isLocal) == [M0("MacroLocalGlobal") EXCEPT !.n = IF isLocal THEN 1 
 MNameExpr(found, err) == [M0("MacroNameExpr") EXCEPT !.n = IF found THEN 1 ELSE 0, !.a = err]
 
 \* ---------------------------------------------------------------- state helpers
-NoCk == [set |-> FALSE, pos |-> 0, ts |-> 0, ml |-> 0, nt |-> 0, nl |-> 0, ns |-> 0]
+NoCk == [set |-> FALSE, pos |-> 0, ts |-> 0, tl |-> 0, ml |-> 0, nt |-> 0, nl |-> 0, ns |-> 0]
 
 \* sep: the macro_sep feature of the build (a field, so that two builds can be run side by side)
 InitStateF(bom, sepOn) ==
-  [sep |-> sepOn, pos |-> bom, ts |-> bom, modes |-> <<MDefault>>, ck |-> NoCk, pend |-> <<0>>, nest |-> 0,
+  [sep |-> sepOn, pos |-> bom, ts |-> bom, tl |-> 0, modes |-> <<MDefault>>, ck |-> NoCk, pend |-> <<0>>, nest |-> 0,
    toks |-> <<>>, lines |-> <<bom>>, errs |-> <<>>, fault |-> "", la |-> 0, ops |-> <<>>, nlit |-> 0, ss |-> 0]
 InitState(bom) == InitStateF(bom, MacroSepOn)
 
@@ -120,21 +120,26 @@ Pop(S) == IF S.modes = <<>>
 SetTop(S, m) == [S EXCEPT !.modes[Len(S.modes)] = m]
 Adv(S, n) == [S EXCEPT !.pos = @ + n]
 Look(S, i) == [S EXCEPT !.la = Max2(@, i)]
-StartTok(S) == [S EXCEPT !.ts = S.pos]
+\* start_token: token start and its line (cur_token_line = the last line registered so far, 0-based)
+StartTok(S) == [S EXCEPT !.ts = S.pos, !.tl = Len(S.lines) - 1]
 PkOf(ty) == IF ty \in {"IntegerLiteral", "MacroVarResolve"} THEN "i"
             ELSE IF ty \in {"FloatLiteral", "FloatExponentLiteral"} THEN "f" ELSE "n"
 \* pi: the integer payload as a sequence of decimal digits (<<>>: none, or not modelled)
-Tk(ty, ch, c) == [ty |-> ty, ch |-> ch, c |-> c, pk |-> PkOf(ty), ps |-> 0, pe |-> 0, pi |-> <<>>]
+\* l: 0-based index of the line the token starts on (TokenInfo.line)
+Tk(ty, ch, c, l) == [ty |-> ty, ch |-> ch, c |-> c, l |-> l, pk |-> PkOf(ty), ps |-> 0, pe |-> 0, pi |-> <<>>]
 SmallDigits(v) == IF v >= 10 THEN <<v \div 10, v % 10>> ELSE <<v>>
 \* sets the integer payload of the token emitted last
 SetPi(S, ds) == [S EXCEPT !.toks[Len(S.toks)].pi = ds]
-Emit(S, ch, ty) == [S EXCEPT !.toks = Append(@, Tk(ty, ch, S.ts))]
+Emit(S, ch, ty) == [S EXCEPT !.toks = Append(@, Tk(ty, ch, S.ts, S.tl))]
 EmitD(S, ty) == Emit(S, "DEFAULT", ty)
-EmitAt(S, ch, ty, c) == [S EXCEPT !.toks = Append(@, Tk(ty, ch, c))]
+\* a token at a mark (mark_token_start / the final EOF): its line is the last line registered when the mark was taken,
+\* i.e. the last line that starts at or before the mark
+LineIdxAt(S, c) == Cardinality({j \in 1..Len(S.lines) : S.lines[j] <= c}) - 1
+EmitAt(S, ch, ty, c) == [S EXCEPT !.toks = Append(@, Tk(ty, ch, c, LineIdxAt(S, c)))]
 \* a token with a string payload of n bytes appended to the literal buffer (n < 0: no payload)
 EmitS(S, ty, n) ==
   IF n < 0 THEN EmitD(S, ty)
-  ELSE [S EXCEPT !.toks = Append(@, [ty |-> ty, ch |-> "DEFAULT", c |-> S.ts, pk |-> "s", ps |-> S.nlit, pe |-> S.nlit + n, pi |-> <<>>]),
+  ELSE [S EXCEPT !.toks = Append(@, [ty |-> ty, ch |-> "DEFAULT", c |-> S.ts, l |-> S.tl, pk |-> "s", ps |-> S.nlit, pe |-> S.nlit + n, pi |-> <<>>]),
                  !.nlit = @ + n]
 \* payload length of quote-collapsed text T[a..b): -1 when nothing was collapsed
 QPay(T, q, a, b) == LET r == QScan(T, q, a, b, FALSE, 0) IN IF r[1] THEN r[2] ELSE 0 - 1
@@ -158,12 +163,12 @@ PopPend(S) == IF Len(S.pend) > 1 THEN [S EXCEPT !.pend = SubSeq(@, 1, Len(@) - 1
 Op(S, o) == [S EXCEPT !.ops = Append(@, o)]
 Checkpoint(S) ==
   LET S1 == IF S.ck.set THEN Op(Fault(S, "CheckpointOverLive"), "CL") ELSE Op(S, "C") IN
-  [S1 EXCEPT !.ck = [set |-> TRUE, pos |-> S.pos, ts |-> S.ts, ml |-> Len(S.modes),
+  [S1 EXCEPT !.ck = [set |-> TRUE, pos |-> S.pos, ts |-> S.ts, tl |-> S.tl, ml |-> Len(S.modes),
                      nt |-> Len(S.toks), nl |-> Len(S.lines), ns |-> S.nlit]]
 ClearCk(S) == [Op(S, IF S.ck.set THEN "X" ELSE "XN") EXCEPT !.ck = NoCk]
 Rollback(S) ==
   IF S.ck.set
-    THEN [Op(S, "R") EXCEPT !.pos = S.ck.pos, !.ts = S.ck.ts,
+    THEN [Op(S, "R") EXCEPT !.pos = S.ck.pos, !.ts = S.ck.ts, !.tl = S.ck.tl,
                            !.modes = SubSeq(S.modes, 1, IF S.ck.ml < Len(S.modes) THEN S.ck.ml ELSE Len(S.modes)),
                            !.toks = SubSeq(S.toks, 1, IF S.ck.nt < Len(S.toks) THEN S.ck.nt ELSE Len(S.toks)),
                            !.lines = SubSeq(S.lines, 1, IF S.ck.nl < Len(S.lines) THEN S.ck.nl ELSE Len(S.lines)),
@@ -875,7 +880,7 @@ DispatchMaybeArgsOrLabel(S, T, checkLabel) ==
            pi == IF li1 > 0 THEN LastDefIdx(S1.toks, li1 - 1) ELSE 0
            prevTy == IF pi > 0 THEN S1.toks[pi].ty ELSE "None"
            S2 == IF S.sep /\ li1 > 0 /\ NeedsMacroSep(prevTy, S1.toks[li1].ty)
-                   THEN InsertTok(S1, li1, Tk("MacroSep", "DEFAULT", S1.toks[li1].c))
+                   THEN InsertTok(S1, li1, Tk("MacroSep", "DEFAULT", S1.toks[li1].c, S1.toks[li1].l))
                    ELSE S1
        IN Pop(ClearCk(Emit(Adv(StartTok(S2), 1), "HIDDEN", "COLON")))
   ELSE Rollback(S)
